@@ -102,8 +102,8 @@ func (f *formatter) kw(keyword string) string {
 }
 
 func (f *formatter) indentStr() string {
-	if f.opts.IndentWidth == 0 {
-		return ""
+	if f.opts.IndentWidth <= 0 {
+		return "" // (a negative width is no indentation, not a panic in strings.Repeat)
 	}
 	ch := " "
 	if f.opts.IndentStyle == IndentTabs {
